@@ -235,6 +235,56 @@ func crossImportCase(col *Collector, rng *rand.Rand, fa, fb string, emptyMain, v
 	col.Add(cs)
 }
 
+// both files define the SAME pipeline and the same task with variations (lists of mappings, which the merge of an
+// import appends): every pair of formats must give what the all-YAML pair gives
+func sharedListsCrossImportCases(col *Collector) {
+	ref := ""
+	for _, fa := range formats {
+		for _, fb := range formats {
+			dir := newScratchDir("c16s")
+			a := map[string]interface{}{
+				"import": []interface{}{"other." + fb},
+				"tasks": map[string]interface{}{
+					"ta": map[string]interface{}{"command": []interface{}{"echo a"}},
+					"tv": map[string]interface{}{"command": []interface{}{"echo v $V"}, "variations": []interface{}{map[string]interface{}{"V": "main"}}},
+				},
+				"pipelines": map[string]interface{}{"ps": []interface{}{map[string]interface{}{"task": "ta"}}},
+			}
+			b := map[string]interface{}{
+				"tasks": map[string]interface{}{
+					"tb": map[string]interface{}{"command": []interface{}{"echo b"}},
+					"tv": map[string]interface{}{"variations": []interface{}{map[string]interface{}{"V": "other"}}},
+				},
+				"pipelines": map[string]interface{}{"ps": []interface{}{map[string]interface{}{"task": "tb"}}},
+			}
+			ta, _ := serialise(a, fa)
+			tb, _ := serialise(b, fb)
+			os.WriteFile(filepath.Join(dir, "main."+fa), []byte(ta), 0644)
+			os.WriteFile(filepath.Join(dir, "other."+fb), []byte(tb), 0644)
+			cs := Case{Tags: []string{"cross-import", "shared-lists"}, NonTrivial: true,
+				Replay: fmt.Sprintf("main.%s and other.%s (imported) both define pipeline ps and the variations of task tv: %s <- %s", fa, fb, strings.ReplaceAll(ta, "\n", "\\n"), strings.ReplaceAll(tb, "\n", "\\n"))}
+			cfgArg := filepath.Join(dir, "main."+fa)
+			g := runTaskctl(dir, nil, 15*time.Second, "-c", cfgArg, "graph", "ps")
+			r := runTaskctl(dir, nil, 15*time.Second, "-c", cfgArg, "--output", "raw", "-q", "--summary=false", "tv")
+			obs := fmt.Sprintf("graph exit=%d %s | run tv exit=%d %s", g.exit, canonDot(g.stdout), r.exit, strings.Join(strings.Fields(r.stdout), " "))
+			if g.exit != 0 {
+				obs += " | " + lastLines(g.stderr, 1)
+			}
+			cs.Impl = clipStr(obs, 300)
+			if ref == "" {
+				ref = obs
+				if g.exit != 0 || r.exit != 0 {
+					cs.Fail, cs.Sig = "the all-YAML configuration does not load or run: "+obs, "c16-cross-import"
+				}
+			} else if obs != ref {
+				cs.Fail, cs.Sig = fmt.Sprintf("main.%s importing other.%s gives [%s], the same content in YAML gives [%s]", fa, fb, clipStr(obs, 300), clipStr(ref, 300)), "c16-cross-import"
+			}
+			col.Add(cs)
+			os.RemoveAll(dir)
+		}
+	}
+}
+
 func runC16(col *Collector, tier string, seed int64) {
 	loaderReuseCases(col, "C16", []string{"yaml", "json", "toml"}, []string{"missing", "unparsable"})
 	rng := rand.New(rand.NewSource(seed))
@@ -271,6 +321,7 @@ func runC16(col *Collector, tier string, seed int64) {
 		jobs = append(jobs, job{w, tasks, pipes, "weak-typing", i%2 == 0})
 	}
 	parallel(len(jobs), 8, func(i int) { fmtCase(col, jobs[i].cfg, jobs[i].tasks, jobs[i].pipes, jobs[i].tag, jobs[i].run) })
+	sharedListsCrossImportCases(col)
 	for _, fa := range formats {
 		for _, fb := range formats {
 			crossImportCase(col, rng, fa, fb, false, false, false)
